@@ -1195,7 +1195,7 @@ def plural_fn(
     v = expr_fn(ctx, fn_name, [expr], lambda x: x)
     # XXX for some language codes, this is more complex.  See {{plural:...}} in
     # https://www.mediawiki.org/wiki/Help:Magic_words
-    if v == 1:
+    if v == "1":
         return expander(args[1]).strip() if len(args) >= 2 else ""
     return expander(args[2]).strip() if len(args) >= 3 else ""
 
